@@ -246,6 +246,96 @@ func rulesC20(c *Ctx) {
 	ruleNeverWritten(c, "C20.TRANSFORM", nts)
 	ruleC20Validator(c)
 	ruleC20SetNames(c)
+	ruleC20SortSource(c)
+}
+
+// ruleC20SortSource: the sort fields a query is evaluated with are the ones validation sees.  Accept
+// forwards the visitor to the SortBy child; GetSortFields (what the scanners sort by) therefore reads
+// SortBy — or a field that is only ever filled from the same node's SortBy (a cache), never from
+// somewhere validation does not look (another query's fields, a caller-supplied list).
+func ruleC20SortSource(c *Ctx) {
+	p := c.P
+	qn := p.Named("ast", "queryNode")
+	sortBy := p.Field("ast", "queryNode", "SortBy")
+	fn := p.SSAFunc(p.Method("ast", "queryNode", "GetSortFields"))
+	name := FnName(fn)
+	c.Analysed(name)
+	recv := ssa.Value(fn.Params[0])
+	// fields of the receiver read by GetSortFields
+	other := map[*types.Var]token.Pos{}
+	readsSortBy := false
+	for _, b := range fn.Blocks {
+		for _, in := range b.Instrs {
+			fa, ok := in.(*ssa.FieldAddr)
+			if !ok || fa.X != recv {
+				continue
+			}
+			f, _ := fieldOfAddr(fa)
+			if sameVar(f, sortBy) {
+				readsSortBy = true
+			} else if f != nil {
+				other[f] = fa.Pos()
+			}
+		}
+	}
+	ok, why := readsSortBy, "GetSortFields does not read the SortBy child that Accept forwards the visitor to"
+	var fromOwnSortBy func(v ssa.Value, base ssa.Value, depth int) bool
+	fromOwnSortBy = func(v ssa.Value, base ssa.Value, depth int) bool {
+		if v == nil || depth > 6 {
+			return false
+		}
+		if f, b := loadedField(v); sameVar(f, sortBy) && b == base {
+			return true
+		}
+		in, isIn := v.(ssa.Instruction)
+		if !isIn {
+			return false
+		}
+		if _, isPhi := v.(*ssa.Phi); isPhi {
+			all := true
+			for _, op := range in.Operands(nil) {
+				if k, isK := (*op).(*ssa.Const); isK && k.IsNil() {
+					continue
+				}
+				if !fromOwnSortBy(*op, base, depth+1) {
+					all = false
+				}
+			}
+			return all
+		}
+		for _, op := range in.Operands(nil) {
+			if *op != nil && fromOwnSortBy(*op, base, depth+1) {
+				return true
+			}
+		}
+		return false
+	}
+	for f, pos := range other {
+		// every writer of that field in the package stores something derived from the same node's SortBy (or nil)
+		for _, w := range c.prodFuncs("ast") {
+			for _, b := range w.Blocks {
+				for _, in := range b.Instrs {
+					st, isSt := in.(*ssa.Store)
+					if !isSt {
+						continue
+					}
+					wf, base := fieldOfAddr(st.Addr)
+					if !sameVar(wf, f) || namedOf(base.Type()) != qn {
+						continue
+					}
+					if k, isK := st.Val.(*ssa.Const); isK && k.IsNil() {
+						continue
+					}
+					if !fromOwnSortBy(st.Val, base, 0) {
+						ok = false
+						why = "GetSortFields reads the field " + f.Name() + " (at " + p.Pos(pos) + "), which " + FnName(w) + " fills at " + p.Pos(st.Pos()) + " with " + describeValue(st.Val) + " — not derived from the same node's SortBy child: the query sorts by fields that Accept never shows to the validator"
+					}
+				}
+			}
+		}
+	}
+	c.Check(ok, "C20.SORTSOURCE", name, p.Pos(fn.Pos()), "the sort fields used for evaluation come from the SortBy child that Accept visits", why)
+	c.Floor("C20.SORTSOURCE", 1)
 }
 
 // pathOnlyViaNilEdge: every path from entry to exit that avoids all sites passes an edge on which
